@@ -299,6 +299,9 @@ func sortedLines(s string) string {
 // execute a request `nruns` times and emit its case line
 func execute(c *core.Ctx, r *request, nruns int) {
 	var outs []runOut
+	if strings.Contains(r.tpl, "reroot-outgroup-nonmono") && nruns < 20 {
+		nruns = 20 // a dependence that shows in few runs only (a handful of possible outcomes)
+	}
 	if r.kind == "cli" {
 		outs = append(outs, runInprocPair(c, r, 0)...)
 	}
